@@ -69,3 +69,8 @@ pub fn vmap_ref_keys<'a>(m: &'a std::collections::HashMap<String, String>) -> (r
         forall|k: String| #[trigger] m@.contains_key(k) ==> exists|i: int| 0 <= i < r@.len() && *(#[trigger] r@[i]) == k,
         forall|i: int, j: int| 0 <= i < j < r@.len() ==> *(#[trigger] r@[i]) != *(#[trigger] r@[j]),
 { m.keys().collect() }
+/// by-reference iteration over a borrowed map with string keys, as a vector of (key, value) pairs (any order)
+#[verifier::external_body]
+pub fn vmap_pairs_of<'a, V>(m: &'a std::collections::HashMap<String, V>) -> (r: Vec<(&'a String, &'a V)>)
+    ensures forall|i: int| 0 <= i < r@.len() ==> m@.contains_key(*(#[trigger] r@[i]).0),
+{ m.iter().collect() }
